@@ -24,9 +24,59 @@ def a_task(prop, mk, tier="quick"):
     """Engine A task: verify the current source of the function against the contract built by mk()"""
     def run():
         c = mk()
-        return verify(c, tier=_TIER[0])
+        return verify_with_deadline(c, _TIER[0])
     name = getattr(mk, "__name__", "contract")
     return Task(id=f"{prop}.A.{name}", prop=prop, target=name, run=run, tier=tier)
+
+
+def verify_with_deadline(c, tier, deadline_s=None):
+    """verify(c) in a forked child with a wall-clock deadline.  z3 sometimes ignores both its timeout and Z3_interrupt (observed on VCs produced from a seeded change:
+    minutes inside Z3_solver_check past a 30 s budget); the child is then killed, the contract is reported as undecided and its bounded stand-in is run here."""
+    import multiprocessing, os, time
+    from harness.core import OR, UNKNOWN, REFUTED
+    deadline_s = deadline_s or int(os.environ.get("VERIF_VERIFY_TIMEOUT", "240"))
+    ctx = multiprocessing.get_context("fork")
+    rx, tx = ctx.Pipe(duplex=False)
+
+    def child():
+        try:
+            tx.send(("ok", verify(c, tier=tier)))
+        except BaseException as e:       # noqa
+            import traceback
+            tx.send(("err", f"{type(e).__name__}: {e}\n" + traceback.format_exc()[-2000:]))
+        finally:
+            tx.close()
+    p = ctx.Process(target=child)
+    p.start()
+    tx.close()
+    if rx.poll(deadline_s):
+        try:
+            kind, payload = rx.recv()
+        except (EOFError, OSError):
+            kind, payload = "err", f"the verifier process ended without a result (exit code {p.exitcode})"
+        p.join(timeout=10)
+        if kind == "ok":
+            return payload
+        from harness.loader import TargetMissing
+        if payload.startswith("TargetMissing"):
+            raise TargetMissing(payload.split("\n")[0][len("TargetMissing: "):])
+        raise RuntimeError(payload)
+    p.kill()
+    p.join(timeout=10)
+    target = c.target()
+    out = [OR(id=f"{c.prop}.A.{c.qualname}.subset", status=UNKNOWN, kind="A", target=target, role="guard", desc="every VC of the function decided within the wall-clock budget",
+              detail=f"out of reach: the solver did not return within {deadline_s} s (verifier process killed); the bounded stand-in decides")]
+    if c.search_fn is not None:
+        t1 = time.time()
+        try:
+            hit = c.search_fn()
+        except Exception:
+            hit = None
+        if hit:
+            out.append(OR(id=f"{c.prop}.Bd.{c.qualname}.standin", status=REFUTED, kind="Bd", target=target, role="bounded",
+                          desc="bounded stand-in (solver budget exhausted): real function vs executable contract", witness=hit.get("input"), replay=hit,
+                          seconds=time.time() - t1, backend="enumeration", bound="see contract search_fn"))
+    return out
 
 
 _TIER = ["quick"]
